@@ -112,7 +112,7 @@ def unit_create_table_statement():
             ex_.obligations.append(Obligation("column-i-is-appended-after-exactly-i-earlier-columns-and-i-separators", s.pc, z3.And(G(s, "cols_done") == i, G(s, "seps_done") == i), "post", props=["C19"]))
             ex_.obligations.append(Obligation("NOT-NULL-appended-exactly-for-fields-not-allowed-to-be-empty", s.pc, z3.BoolVal(bool(s.ghost["nn_added"])) == z3.Not(R.accessor(0, 4)(r)), "post", props=["C19"]))
             typ = R.accessor(0, 1)(r); OIs = sort_of(Opt(INT)); ln = R.accessor(0, 2)(r); pr = R.accessor(0, 3)(r)
-            is_int_type = z3.Or(*[typ == t for t in ("bigint", "int", "smallint", "tinyint")])
+            is_int_type = z3.Or(*[typ == t for t in sorted(CAP)])
             want = z3.If(z3.Or(is_int_type, OIs.is_none(ln)), 0, z3.If(OIs.is_none(pr), 1, 2))
             ex_.obligations.append(Obligation("size-suffix:-none-for-integer-types-or-without-length-(length)-without-precision-(length,-precision)-otherwise-also-for-precision-0", s.pc,
                                               z3.IntVal(int(s.ghost.get("size_kind", 0))) == want, "post", props=["C19"]))
@@ -177,8 +177,9 @@ def unit_sql_fields():
 
 
 # reserved words spot-checked against the vendors' documentation: each word is reserved in the dialects it is listed under and in no other of the four
+# (ORDER is reserved in all four: Oracle's list has it too - the table in sql.py had it glued to the next word, see F-15)
 KEYWORD_SPOT = {"ANSI": "select table order group year level key user date value", "DB2": "index plan cluster select table order group year comment key user value type label summary",
-                "Transact-SQL": "file index top percent plan select table order group key user", "PL/SQL": "index cluster nowait mode share select table group year level comment date value type hash"}
+                "Transact-SQL": "file index top percent plan select table order group key user", "PL/SQL": "index cluster nowait mode share select table order group year level comment date value type hash"}
 
 
 def unit_is_keyword():
@@ -232,6 +233,7 @@ def unit_c19_table():
             m = re.search(r"^\s+n (\w+)(\(\d+(, \d+)?\))? not null$", ddl, re.M)
             if not m: return {"expected": "one column n <type> not null", "observed": ddl}
             t = m.group(1)
+            if t in CAP and m.group(2): return {"expected": "the integer type %s without a size suffix (an integer column has no length)" % t, "observed": m.group(0).strip()}
             if t in CAP:
                 a, b = CAP[t]
                 if not (a <= lo and hi <= b):
